@@ -49,6 +49,7 @@ def check(sc, ctx):
         ctx.excluded += 1
         ctx.label("excluded:float-on-threshold")
         return
+    routing.side_labels(sc, ev, ctx)
     ctx.label("paired" if sc["paired"] else "single")
     for fate in set(ev.fates):
         ctx.label("fate:" + fate.split(":")[0])
